@@ -6,12 +6,18 @@
 (*   LagInit/LagNext     every lag index x contour x rate x frame size, and *)
 (*                       the lag-index accumulator over a packet            *)
 (*   NlsfInit/NlsfNext   both codebooks, every first-stage vector, families *)
-(*                       of residual vectors                                *)
+(*                       of residual vectors (cut into 16 slices, one       *)
+(*                       initial state each, so that the workers share them)*)
+(* Violated invariants of the lag and NLSF machines are reported as         *)
+(* violations of the property (the tables come from the library under test);*)
+(* the gain machine uses no table: a violation there is a model defect.     *)
 EXTENDS SilkParams, FiniteSets
 CONSTANTS RawSpan,              \* raw log-domain levels -RawSpan..RawSpan offered to the quantiser model
           LagSlack,             \* lag indices checked: -LagSlack .. MaxAbsLagIndex + LagSlack
-          NbSigns, WbSigns,     \* BOOLEAN: all {-10,10}^order residual vectors for NB/MB, for WB
-          NbTernary,            \* BOOLEAN: all {-10,0,10}^10 residual vectors for NB/MB
+          NbSigns,              \* BOOLEAN: all {-10,10}^10 residual vectors for NB/MB
+          WbSignsStride,        \* 0: off; k > 0: all {-10,10}^16 residual vectors for the WB first-stage vectors i1 with (i1 + StrideOffset) % k = 0
+          NbTernaryStride,      \* 0: off; k > 0: all {-10,0,10}^10 residual vectors for the NB/MB first-stage vectors i1 with (i1 + StrideOffset) % k = 0
+          StrideOffset,         \* the strided families take the first-stage vectors with (i1 + StrideOffset) % k = 0
           WbHalfSigns           \* BOOLEAN: {-10,10} on 8 coefficients, 0 elsewhere (both halves, even/odd) for WB
 VARIABLE s
 
@@ -88,20 +94,30 @@ Extremes(o) ==
           \cup {[i \in 1..o |-> IF i <= k THEN v ELSE -v] : k \in 1..o}
         : v \in {-10, 10, -4, 4, -1, 1} }
 Half(o, keep, vals) == { [i \in 1..o |-> IF i \in keep THEN f[i] ELSE 0] : f \in [keep -> vals] }
-ResFamilies(cbSel, o) ==
-  Extremes(o)
-  \cup (IF cbSel = 0 /\ NbSigns THEN [1..o -> {-10, 10}] ELSE {})
-  \cup (IF cbSel = 0 /\ NbTernary THEN [1..o -> {-10, 0, 10}] ELSE {})
-  \cup (IF cbSel = 1 /\ WbSigns THEN [1..o -> {-10, 10}] ELSE {})
-  \cup (IF cbSel = 1 /\ WbHalfSigns
+\* The big families are cut into 16 slices (by the first coefficients) so that TLC's workers share them:
+\* one initial state per (codebook, first-stage vector, slice).
+NSlices == 16
+Bit(b, i) == (b \div (2 ^ (i - 1))) % 2
+SignsSlice(o, b) ==
+  { [i \in 1..o |-> IF i <= 4 THEN (IF Bit(b, i) = 1 THEN 10 ELSE -10) ELSE f[i]] : f \in [5..o -> {-10, 10}] }
+TernSlice(o, b) ==
+  IF b >= 9 THEN {}
+  ELSE { [i \in 1..o |-> IF i = 1 THEN 10 * ((b % 3) - 1) ELSE IF i = 2 THEN 10 * ((b \div 3) - 1) ELSE f[i]] : f \in [3..o -> {-10, 0, 10}] }
+ResFamilies(cbSel, i1, o, slice) ==
+  (IF slice = 0 THEN Extremes(o) ELSE {})
+  \cup (IF cbSel = 0 /\ NbSigns THEN SignsSlice(o, slice) ELSE {})
+  \cup (IF cbSel = 0 /\ NbTernaryStride > 0 /\ (i1 + StrideOffset) % NbTernaryStride = 0 THEN TernSlice(o, slice) ELSE {})
+  \cup (IF cbSel = 1 /\ WbSignsStride > 0 /\ (i1 + StrideOffset) % WbSignsStride = 0 THEN SignsSlice(o, slice) ELSE {})
+  \cup (IF cbSel = 1 /\ WbHalfSigns /\ slice = 1
         THEN Half(o, 1..8, {-10, 10}) \cup Half(o, 9..16, {-10, 10})
              \cup Half(o, {1, 3, 5, 7, 9, 11, 13, 15}, {-10, 10}) \cup Half(o, {2, 4, 6, 8, 10, 12, 14, 16}, {-10, 10})
         ELSE {})
 
-NlsfInit == \E cbSel \in {0, 1} : \E i1 \in 0..(CB(cbSel).nv - 1) : s = [m |-> "n0", cb |-> cbSel, i1 |-> i1]
+NlsfInit == \E cbSel \in {0, 1} : \E i1 \in 0..(CB(cbSel).nv - 1), sl \in 0..(NSlices - 1) :
+               s = [m |-> "n0", cb |-> cbSel, i1 |-> i1, slice |-> sl]
 NlsfStep ==
   /\ s.m = "n0"
-  /\ \E res \in ResFamilies(s.cb, CB(s.cb).order) :
+  /\ \E res \in ResFamilies(s.cb, s.i1, CB(s.cb).order, s.slice) :
        \E cb \in {CB(s.cb)} : \E idx \in {<<s.i1>> \o res} :
          \E r \in {NLSFStabilizeL(NLSFRaw(cb, idx), cb.dmin, cb.order)} :
             s' = [m |-> "n", cb |-> s.cb, idx |-> idx, loops |-> r.loops, q |-> r.q]
@@ -113,7 +129,7 @@ NlsfSeen == (s.m = "seen") => PrintT(<<"SEEN", s.cb, s.loops>>)
 NlsfInRange == (s.m = "n") => NLSFInRange(s.q)
 NlsfOrdered == (s.m = "n") => NLSFOrdered(s.q)
 NlsfSpaced  == (s.m = "n") => NLSFSpaced(s.q, CB(s.cb).dmin)
-NlsfTablesOK == (s.m = "n0" /\ s.i1 = 0) =>
+NlsfTablesOK == (s.m = "n0" /\ s.i1 = 0 /\ s.slice = 0) =>
   \A c \in {0, 1} : LET cb == CB(c) IN
      /\ CBShapeOK(cb)
      /\ \A i \in 1..(cb.order + 1) : cb.dmin[i] >= 1                        \* strict ordering follows from spacing
